@@ -232,25 +232,122 @@ type decArm struct {
 	Problems []string
 }
 
-// fieldsLoop finds the loop of ToCommandLine that renders the filters (the one containing the "-F %s%s%s" Sprintf).
-func (x *rulePkg) renderLoop() (*Loop, *ssa.Call) {
-	var fcall *ssa.Call
-	for _, c := range callsNamedIn(x.toCmd, "fmt.Sprintf") {
-		if f, _ := constString(c.Common().Args[0]); f == "-F %s%s%s" {
-			fcall = c.(*ssa.Call)
+// renderPart is one piece of a rendered string: a literal or a value.
+type renderPart struct {
+	Lit string
+	Val ssa.Value
+}
+
+// renderParts decomposes a string built by fmt.Sprintf with a format of literals and %s verbs,
+// or by concatenation, into its pieces; nil when v is neither.
+func renderParts(v ssa.Value) []renderPart {
+	switch x := v.(type) {
+	case *ssa.Call:
+		if calleeName(x) != "fmt.Sprintf" {
+			return nil
+		}
+		f, ok := constString(x.Call.Args[0])
+		if !ok {
+			return nil
+		}
+		els := varargElems(x, 1)
+		var out []renderPart
+		k := 0
+		for len(f) > 0 {
+			i := strings.Index(f, "%")
+			if i < 0 {
+				out = append(out, renderPart{Lit: f})
+				break
+			}
+			if i > 0 {
+				out = append(out, renderPart{Lit: f[:i]})
+			}
+			if i+1 >= len(f) || (f[i+1] != 's' && f[i+1] != 'v') || k >= len(els) {
+				return nil
+			}
+			out = append(out, renderPart{Val: stripConv(els[k])})
+			k++
+			f = f[i+2:]
+		}
+		if k != len(els) {
+			return nil
+		}
+		return out
+	case *ssa.BinOp:
+		if x.Op != token.ADD {
+			return nil
+		}
+		if b, ok := x.Type().Underlying().(*types.Basic); !ok || b.Info()&types.IsString == 0 {
+			return nil
+		}
+		var out []renderPart
+		var flat func(ssa.Value)
+		flat = func(y ssa.Value) {
+			if b, ok := y.(*ssa.BinOp); ok && b.Op == token.ADD {
+				flat(b.X)
+				flat(b.Y)
+				return
+			}
+			if s, ok := constString(y); ok {
+				out = append(out, renderPart{Lit: s})
+				return
+			}
+			out = append(out, renderPart{Val: y})
+		}
+		flat(x)
+		return out
+	}
+	return nil
+}
+
+// renderRoots lists the values in fn that render a string starting with one of the literal
+// prefixes (Sprintf calls, or the outermost node of a concatenation).
+func renderRoots(fn *ssa.Function, prefixes ...string) []ssa.Value {
+	var out []ssa.Value
+	instrsOf(fn, func(in ssa.Instruction) {
+		v, ok := in.(ssa.Value)
+		if !ok {
+			return
+		}
+		if b, isB := in.(*ssa.BinOp); isB && b.Referrers() != nil {
+			for _, rf := range *b.Referrers() {
+				if pb, isPB := rf.(*ssa.BinOp); isPB && pb.Op == token.ADD && pb.X == ssa.Value(b) {
+					return // not the outermost node
+				}
+			}
+		}
+		ps := renderParts(v)
+		if len(ps) == 0 || ps[0].Val != nil {
+			return
+		}
+		for _, pre := range prefixes {
+			if strings.HasPrefix(ps[0].Lit, pre) {
+				out = append(out, v)
+			}
+		}
+	})
+	return out
+}
+
+// renderLoop finds the loop of ToCommandLine that renders the filters: the innermost loop
+// containing the rendering of "-F <lhs><op><rhs>".
+func (x *rulePkg) renderLoop() (*Loop, ssa.Value) {
+	var froot ssa.Value
+	for _, v := range renderRoots(x.toCmd, "-F ") {
+		if ps := renderParts(v); len(ps) == 4 && ps[0].Lit == "-F " && ps[1].Val != nil && ps[2].Val != nil && ps[3].Val != nil {
+			froot = v
 		}
 	}
-	if fcall == nil {
+	if froot == nil {
 		return nil, nil
 	}
 	var best *Loop
 	for _, l := range NaturalLoops(x.toCmd) {
-		if l.Body[fcall.Block()] && (best == nil || len(l.Body) < len(best.Body)) {
-			// innermost loop containing the call whose header tests the range over r.fields
+		if l.Body[froot.(ssa.Instruction).Block()] && (best == nil || len(l.Body) < len(best.Body)) {
 			best = l
 		}
 	}
-	return best, fcall
+	return best, froot
 }
 
 func varargElems(c *ssa.Call, argIdx int) []ssa.Value {
@@ -314,6 +411,12 @@ func (x *rulePkg) decoderArm(code uint64) decArm {
 		arm.Problems = append(arm.Problems, "path cap exceeded")
 	}
 	kinds := map[string]bool{}
+	var roots []ssa.Value
+	for _, v := range renderRoots(x.toCmd, "-F ", "-C ") {
+		if loop.Body[v.(ssa.Instruction).Block()] {
+			roots = append(roots, v)
+		}
+	}
 	for _, p := range ps {
 		if p.End != "stop" {
 			continue
@@ -321,29 +424,31 @@ func (x *rulePkg) decoderArm(code uint64) decArm {
 		if p.HasLit("p1") {
 			continue // resolveIds = true: outside the property's domain
 		}
-		// which Sprintf produced the argument on this path?
-		var sp *ssa.Call
-		for _, e := range p.CallsNamed("fmt.Sprintf") {
-			c := e.Instr.(*ssa.Call)
-			f, _ := constString(c.Call.Args[0])
-			if strings.HasPrefix(f, "-F ") || strings.HasPrefix(f, "-C ") {
-				sp = c
+		// which rendering produced the argument on this path?
+		var sp ssa.Value
+		onPath := blockSet(p.Blocks)
+		for _, v := range roots {
+			if onPath[v.(ssa.Instruction).Block()] {
+				sp = v
 			}
 		}
 		if sp == nil {
 			kinds["skip"] = true
 			continue
 		}
-		f, _ := constString(sp.Call.Args[0])
-		els := varargElems(sp, 1)
-		if strings.HasPrefix(f, "-C ") {
+		parts := renderParts(sp)
+		var els []ssa.Value
+		for _, pt := range parts[1:] {
+			els = append(els, pt.Val)
+		}
+		if strings.HasPrefix(parts[0].Lit, "-C ") {
 			kinds["compare"] = true
-			arm.OpOK = len(els) == 3 && strings.HasPrefix(Term(els[1]), "rule.reverseOperatorsTable[") && strings.Contains(Term(els[1]), ".fieldFlags["+idxT+"]")
+			arm.OpOK = len(els) == 3 && els[1] != nil && strings.HasPrefix(Term(els[1]), "rule.reverseOperatorsTable[") && strings.Contains(Term(els[1]), ".fieldFlags["+idxT+"]")
 			arm.LhsOK = true
 			continue
 		}
-		if sp != fcall || len(els) != 3 {
-			arm.Problems = append(arm.Problems, "unexpected rendering call "+f)
+		if sp != fcall || len(els) != 3 || els[0] == nil || els[1] == nil || els[2] == nil {
+			arm.Problems = append(arm.Problems, "unexpected rendering "+Term(sp))
 			continue
 		}
 		arm.LhsOK = Term(els[0]) == "rule.reverseFieldsTable["+Term(subj)+"]"
@@ -362,7 +467,7 @@ func (x *rulePkg) decoderArm(code uint64) decArm {
 			k = "int"
 		case t == "strconv.FormatUint(uint64("+valT+"), 10)":
 			k = "uint"
-		case strings.HasPrefix(t, "fmt.Sprintf(\"-%s\""):
+		case isDashName(rhs):
 			k = "exit-name"
 		case t == "(auparse.AuditMessageType).String("+valT+")" || t == "(auparse.AuditMessageType).String(auparse.AuditMessageType("+valT+"))":
 			k = "msgtype-name16"
@@ -390,16 +495,39 @@ func (x *rulePkg) decoderArm(code uint64) decArm {
 	return arm
 }
 
+// isDashName: v renders "-" followed by one value (the errno name).
+func isDashName(v ssa.Value) bool {
+	ps := renderParts(v)
+	return len(ps) == 2 && ps[0].Lit == "-" && ps[1].Val != nil
+}
+
 // parserAccepts: does value parser `fn` accept what a printer of `kind` emits, for every 32-bit value?
 func (x *rulePkg) parserAccepts(parser, kind string) (bool, string) {
 	w := x.w
-	hasCall := func(fn *ssa.Function, callee string, pred func(ssa.CallInstruction) bool) bool {
+	// hasCall looks in fn and in the repository helpers it calls (a parser may delegate the
+	// numeric part to a helper)
+	var hasCallDepth func(fn *ssa.Function, callee string, pred func(ssa.CallInstruction) bool, depth int) bool
+	hasCallDepth = func(fn *ssa.Function, callee string, pred func(ssa.CallInstruction) bool, depth int) bool {
 		for _, c := range callsNamedIn(fn, callee) {
 			if pred == nil || pred(c) {
 				return true
 			}
 		}
-		return false
+		if depth >= 2 {
+			return false
+		}
+		found := false
+		instrsOf(fn, func(in ssa.Instruction) {
+			if c, ok := in.(*ssa.Call); ok && !found {
+				if g := c.Call.StaticCallee(); g != nil && g != fn && isRepoFunc(g) && g.Parent() == nil && !anchored[g] {
+					found = hasCallDepth(g, callee, pred, depth+1)
+				}
+			}
+		})
+		return found
+	}
+	hasCall := func(fn *ssa.Function, callee string, pred func(ssa.CallInstruction) bool) bool {
+		return hasCallDepth(fn, callee, pred, 0)
 	}
 	signed32 := func(fn *ssa.Function) bool {
 		// a strconv.ParseInt(_, 10|0, 32) whose result is returned as uint32 on success
@@ -539,19 +667,18 @@ func propC07(r *Run, w *World) {
 	r.Rule("C07.R3", "the operator is rendered: every rendered filter argument (-F, -C, arch) includes reverseOperatorsTable[fieldFlags[i]] of the same filter", 3)
 	{
 		n := 0
-		for _, c := range callsNamedIn(x.toCmd, "fmt.Sprintf") {
-			call := c.(*ssa.Call)
-			f, _ := constString(call.Call.Args[0])
-			if !(strings.HasPrefix(f, "-F ") || strings.HasPrefix(f, "-C ") || strings.HasPrefix(f, "arch")) {
-				continue
-			}
+		for _, root := range renderRoots(x.toCmd, "-F ", "-C ", "arch") {
+			parts := renderParts(root)
+			f := parts[0].Lit
 			n++
-			els := varargElems(call, 1)
 			hasOp := false
-			for _, e := range els {
+			nVals := 0
+			for _, pt := range parts[1:] {
+				e := pt.Val
 				if e == nil {
 					continue
 				}
+				nVals++
 				t := Term(e)
 				if strings.HasPrefix(t, "rule.reverseOperatorsTable[") && strings.Contains(t, ".fieldFlags[") {
 					hasOp = true
@@ -565,10 +692,10 @@ func propC07(r *Run, w *World) {
 					}
 				}
 			}
-			r.Check(hasOp && strings.Count(f, "%s") >= 2, "ToCommandLine render "+f, call.Pos(), "operator taken from the filter's flags",
-				fmt.Sprintf("the argument rendered with %q does not include the filter's operator: every operator is listed as the literal in the format (e.g. arch!=b64 lists as arch=b64)", f))
+			r.Check(hasOp && nVals >= 2, "ToCommandLine render "+strings.TrimSpace(f), root.Pos(), "operator taken from the filter's flags",
+				fmt.Sprintf("the argument rendered with prefix %q does not include the filter's operator: every operator is listed as a literal (e.g. arch!=b64 lists as arch=b64)", f))
 		}
-		r.Check(n == 3, "render sites", x.toCmd.Pos(), "", fmt.Sprintf("%d rendering Sprintf sites found (want -F, -C, arch)", n))
+		r.Check(n == 3, "render sites", x.toCmd.Pos(), "", fmt.Sprintf("%d rendering sites found (want -F, -C, arch)", n))
 		// per-field operator/LHS wiring
 		for _, name := range x.sortedFieldNames() {
 			if name == "arch" {
@@ -607,25 +734,51 @@ func propC07(r *Run, w *World) {
 	// R5
 	r.Rule("C07.R5", "string-class field sets agree: fromAuditRuleData, ToCommandLine and addFilter treat the same set of field codes as strings", 3)
 	{
+		// For every known field code C: enumerate one iteration of the decoding loop under the
+		// assumption fields[i] == C (helpers used as branch predicates are looked through) and see
+		// whether it takes a string from the buffer (a store to .strings).
 		fromStr := map[string]bool{}
-		for _, arm := range switchArms(x.fromARD) {
-			if !strings.Contains(arm.Subject, ".fields[") {
-				continue
+		var subjects []ssa.Value
+		instrsOf(x.fromARD, func(in ssa.Instruction) {
+			if u, ok := in.(*ssa.UnOp); ok && u.Op == token.MUL {
+				if ia, isIA := u.X.(*ssa.IndexAddr); isIA && strings.HasSuffix(Term(ia.X), ".fields") {
+					subjects = append(subjects, u)
+				}
 			}
-			v, _ := constInt(arm.Const)
-			// the arm appends to strings
-			appends := false
-			for _, b := range x.fromARD.Blocks {
-				if b == arm.Arm || arm.Arm.Dominates(b) {
-					for _, in := range b.Instrs {
-						if st, ok := in.(*ssa.Store); ok && strings.HasSuffix(AddrTerm(st.Addr), ".strings") {
-							appends = true
+		})
+		var loop *Loop
+		for _, l := range NaturalLoops(x.fromARD) {
+			for _, sv := range subjects {
+				if l.Body[sv.(ssa.Instruction).Block()] {
+					loop = l
+				}
+			}
+		}
+		if loop == nil || len(subjects) == 0 {
+			r.Undecided("fromAuditRuleData field dispatch", x.fromARD.Pos(), "cannot find the loop that dispatches on fields[i]")
+		} else {
+			var codes []uint64
+			for c := range x.fieldName {
+				codes = append(codes, c)
+			}
+			sort.Slice(codes, func(i, j int) bool { return codes[i] < codes[j] })
+			for _, c := range codes {
+				as := map[ssa.Value]string{}
+				for _, sv := range subjects {
+					as[sv] = fmt.Sprint(c)
+				}
+				ps, complete := Paths(x.fromARD, PathOpts{Start: loop.Header, StopAt: func(b *ssa.BasicBlock) bool { return b == loop.Header }, Assume: as, Within: loop.Body})
+				if !complete {
+					r.Undecided("fromAuditRuleData field "+x.fieldName[c], x.fromARD.Pos(), "path cap exceeded")
+					continue
+				}
+				for _, p := range ps {
+					for _, e := range p.Events {
+						if st, ok := e.Instr.(*ssa.Store); ok && e.Kind == EvStore && strings.HasSuffix(AddrTerm(st.Addr), ".strings") {
+							fromStr[x.fieldName[c]] = true
 						}
 					}
 				}
-			}
-			if appends {
-				fromStr[x.fieldName[uint64(v)]] = true
 			}
 		}
 		set := func(m map[string]bool) string {
@@ -826,7 +979,21 @@ func propC06(r *Run, w *World) {
 			}
 			r.Check(got[k] == want[k], "header."+strings.Split(k, "[")[0], fn.Pos(), want[k], fmt.Sprintf("header field %s is filled from %q; want %q", k, got[k], want[k]))
 		}
-		okBuf := strings.HasPrefix(got["Buf"], "append(new(rule.auditRuleData)") && strings.Contains(got["Buf"], ".Buf, []byte("+local+".strings[")
+		// Buf = append(Buf, <strings[i]>...) with i walking forward over r.strings (range or counted
+		// loop; the element may be converted to []byte or spread directly)
+		okBuf := false
+		if lastBufAppend != nil {
+			if c, isApp := isAppendCall(lastBufAppend.Val); isApp {
+				base, _, spread, _ := appendParts(c)
+				if spread != nil && AddrTerm(lastBufAppend.Addr) == Term(base) {
+					sp := spread
+					if cv, isCv := sp.(*ssa.Convert); isCv {
+						sp = cv.X
+					}
+					okBuf = isForwardElem(sp, func(b ssa.Value) bool { return Term(b) == local+".strings" })
+				}
+			}
+		}
 		r.Check(okBuf, "Buf = strings concatenated in order", fn.Pos(), "", "Buf is not built by appending r.strings in order: "+got["Buf"])
 		okLen := bufLenSt != nil && lastBufAppend != nil && strings.HasPrefix(Term(bufLenSt.Val), "uint32(len(new(rule.auditRuleData)") && strings.HasSuffix(Term(bufLenSt.Val), ".Buf))")
 		if okLen {
@@ -1039,7 +1206,11 @@ func propC06(r *Run, w *World) {
 		okOrder := false
 		for _, p := range ps {
 			ret := p.Return()
-			if ret == nil || !isNilConst(ret.Results[0]) {
+			if ret == nil {
+				continue
+			}
+			// success: returns nil, or forwards the result of the final addKeys step
+			if rc, isCall := ret.Results[0].(*ssa.Call); !isNilConst(ret.Results[0]) && !(isCall && rc.Call.StaticCallee() == x.addKeys) {
 				continue
 			}
 			var seq []string
